@@ -612,4 +612,5 @@ func runC19(c *Ctx) {
 	c19Reducers(c)
 	c19Loop(c)
 	c19Timelines(c)
+	c19WriteFail(c) // probes / dead-link drop after a data send whose transport write failed (c19_writefail.go)
 }
